@@ -12,7 +12,7 @@ use crate::parser::{
     CsrImm, HasRegisterSets, InstructionProperties, LabelString, LabelStringToken,
     RegisterProperties,
 };
-use crate::parser::{ParserNode, Register};
+use crate::parser::{LoadType, ParserNode, Register};
 use crate::passes::{CfgError, GenerationPass};
 
 use super::memory_location::MemoryLocation;
@@ -304,6 +304,10 @@ fn rule_expand_address_for_load(
 ) {
     if let Some(store_reg) = node.writes_to() {
         if let ParserNode::Load(load) = node {
+            // lb/lbu/lh/lhu yield a part of the word at the location
+            if !matches!(load.inst.get(), LoadType::Lw | LoadType::Lwu) {
+                return;
+            }
             if let Some(AvailableValue::OriginalRegisterWithScalar(reg, off)) =
                 available_in.get(load.rs1.get())
             {
